@@ -12,8 +12,8 @@ class SourceIndex:
     # are verified like any other function, every callee by its contract
     VERIF_ROOT = os.path.dirname(os.path.dirname(os.path.dirname(os.path.abspath(__file__))))
 
-    def __init__(self, repo="/repo"):
-        self.repo = repo
+    def __init__(self, repo=None):
+        self.repo = repo or os.environ.get("VERIF_REPO", "/repo")
         self.mods = {}
 
     def root_of(self, parts):
